@@ -123,7 +123,7 @@ static bool carry_over_fails(const Plan &p, const std::string &key, int *which =
     run_solo(p, b, -1, true);
     for (size_t t = 0; t < p.tasks.size(); t++)
         for (size_t o = 1; o < p.tasks[t].ops.size() && !p.tasks[t].ops[o].f.alloc_k && !p.tasks[t].ops[o].f.alloc_mask; o++)
-            if ((!b.res[t][o].done || a.res[t][o].digest != b.res[t][o].digest) && std::string("carry-over:") + g_fn[p.tasks[t].ops[o].fn].name == key) {
+            if ((!b.res[t][o].done || a.res[t][o].digest_h != b.res[t][o].digest_h) && std::string("carry-over:") + g_fn[p.tasks[t].ops[o].fn].name == key) {
                 if (which) *which = (int)o;
                 return true;
             }
@@ -574,7 +574,7 @@ int c12_batch(const Args &a) {
                         // (nor are the calls after it: their digests cover the task's whole memory, which that call shapes)
                         if (plan.tasks[t].ops[o].f.alloc_k || plan.tasks[t].ops[o].f.alloc_mask) break;
                         st.carry_ops++;
-                        if (fresh.res[t][o].done && fresh.res[t][o].digest == solo.res[t][o].digest) continue;
+                        if (fresh.res[t][o].done && fresh.res[t][o].digest_h == solo.res[t][o].digest_h) continue;
                         const Op &op = plan.tasks[t].ops[o];
                         std::string key = std::string("carry-over:") + g_fn[op.fn].name;
                         uint64_t &cnt = st.viol_count[key];
